@@ -390,6 +390,114 @@ theorem stack_one (inner : Bool) (ss : List Sch) (s : Sch) (hs : s ∈ ss)
       simp only
       cases s <;> rfl
 
+/-! ### D99: the index names all inputs agree on are the names pandas gives (when no RangeIndex stand-in interferes) -/
+
+theorem lvlNames_Z : ∀ (a b : List Lvl), lvlNames (Z a b) = List.zipWith meetName (lvlNames a) (lvlNames b)
+  | [], _ => by simp [Z, lvlNames]
+  | _ :: _, [] => by simp [Z, lvlNames]
+  | (n, k) :: t, (n', k') :: u => by
+    have ih := lvlNames_Z t u
+    simp only [lvlNames, Z] at ih
+    simp only [Z, lvlNames, List.zipWith_cons_cons, List.map_cons, mergeLvl, meetName, ih]
+
+theorem lvlNames_foldl : ∀ (is : List (List Lvl)) (i : List Lvl),
+    lvlNames (is.foldl Z i) = (is.map lvlNames).foldl (List.zipWith meetName) (lvlNames i)
+  | [], _ => rfl
+  | b :: t, i => by
+    rw [List.foldl_cons, List.map_cons, List.foldl_cons, lvlNames_foldl t (Z i b), lvlNames_Z]
+
+theorem lvlNames_commonIdx (i : List Lvl) (is : List (List Lvl)) :
+    lvlNames (commonIdx (i :: is)) = commonNames ((i :: is).map lvlNames) := by
+  show lvlNames (is.foldl Z i) = _
+  rw [lvlNames_foldl]
+  rfl
+
+theorem setNames_self : ∀ (idx : List Lvl), setNames idx (lvlNames idx) = idx
+  | [] => rfl
+  | (n, k) :: t => by
+    have ih := setNames_self t
+    simp only [setNames, lvlNames] at ih
+    simp only [setNames, lvlNames, List.map_cons, List.zipWith_cons_cons, ih]
+
+theorem allIdx_frames : ∀ {ss : List Sch} {fr : List (List Col × List Lvl)}, frameParts ss = some fr →
+    allIdx ss = some (fr.map (·.2))
+  | [], _, h => by simp [frameParts] at h; subst h; rfl
+  | .frame c i :: t, fr, h => by
+    simp only [frameParts] at h
+    cases ht : frameParts t with
+    | none => rw [ht] at h; cases h
+    | some fr' =>
+      rw [ht] at h
+      simp only [Option.map_some, Option.some.injEq] at h
+      subst h
+      simp only [allIdx, idxOf, allIdx_frames ht, List.map_cons]
+  | .series _ _ _ :: _, _, h => by simp [frameParts] at h
+  | .index _ :: _, _, h => by simp [frameParts] at h
+  | .scalar _ :: _, _, h => by simp [frameParts] at h
+  | .bad :: _, _, h => by simp [frameParts] at h
+
+theorem allIdx_series : ∀ {ss : List Sch} {sr : List (Option Name × Kind × List Lvl)}, seriesParts ss = some sr →
+    allIdx ss = some (sr.map (·.2.2))
+  | [], _, h => by simp [seriesParts] at h; subst h; rfl
+  | .series n k i :: t, sr, h => by
+    simp only [seriesParts] at h
+    cases ht : seriesParts t with
+    | none => rw [ht] at h; cases h
+    | some sr' =>
+      rw [ht] at h
+      simp only [Option.map_some, Option.some.injEq] at h
+      subst h
+      simp only [allIdx, idxOf, allIdx_series ht, List.map_cons]
+  | .frame _ _ :: _, _, h => by simp [seriesParts] at h
+  | .index _ :: _, _, h => by simp [seriesParts] at h
+  | .scalar _ :: _, _, h => by simp [seriesParts] at h
+  | .bad :: _, _, h => by simp [seriesParts] at h
+
+theorem setNames_commonIdx (idxs : List (List Lvl)) (hne : idxs ≠ []) :
+    setNames (commonIdx idxs) (commonNames (idxs.map lvlNames)) = commonIdx idxs := by
+  cases idxs with
+  | nil => exact absurd rfl hne
+  | cons i is => rw [← lvlNames_commonIdx, setNames_self]
+
+/-- with every input taking part in the declaration, the override changes nothing -/
+theorem overrideNames_id (inner : Bool) (ss : List Sch) : overrideNames (pConcatRows inner ss) ss = pConcatRows inner ss := by
+  cases hss : ss with
+  | nil => rfl
+  | cons s0 t =>
+    rw [← hss]
+    have hne : ss.isEmpty = false := by rw [hss]; rfl
+    unfold pConcatRows
+    simp only [hne, Bool.false_eq_true, if_false]
+    cases hfp : frameParts ss with
+    | some fr =>
+      simp only [overrideNames, allIdx_frames hfp]
+      have hfr : fr.map (·.2) ≠ [] := by
+        intro h0
+        have hfr0 : fr = [] := by simpa using h0
+        subst hfr0
+        rw [hss] at hfp
+        cases s0 <;> simp [frameParts] at hfp
+      split
+      · rw [setNames_commonIdx _ hfr]
+      · rfl
+    | none =>
+      simp only
+      cases hsp : seriesParts ss with
+      | some sr =>
+        simp only [overrideNames, allIdx_series hsp]
+        have hsr : sr.map (·.2.2) ≠ [] := by
+          intro h0
+          have hsr0 : sr = [] := by simpa using h0
+          subst hsr0
+          rw [hss] at hsp
+          cases s0 <;> simp [seriesParts] at hsp
+        split
+        · rw [setNames_commonIdx _ hsr]
+        · rfl
+      | none =>
+        simp only [overrideNames]
+        cases allIdx ss <;> rfl
+
 /-- `Concat`: every output partition carries the declared schema -/
 theorem taskConcat_eq (a i : Bool) (rt : Rt) (ss : List Sch) (hg : guardConcat a (declConcat a i ss) ss = true) :
     taskConcat a i rt (declConcat a i ss) ss = declConcat a i ss := by
@@ -410,7 +518,7 @@ theorem taskConcat_eq (a i : Bool) (rt : Rt) (ss : List Sch) (hg : guardConcat a
       exact this.1
     have hdecl : declConcat false i ss = pConcatRows i ss := by
       unfold declConcat
-      simp only [Bool.false_eq_true, if_false, filter_all_self ss hasColumns hcols]
+      simp only [Bool.false_eq_true, if_false, filter_all_self ss hasColumns hcols, overrideNames_id]
     rw [hdecl] at hnd hall ⊢
     unfold taskConcat
     simp only [Bool.false_eq_true, if_false]
